@@ -5,6 +5,8 @@ open Oslo Oslo.Units Oslo.Proto
 /-
 Requests (TAB separated, text fields hex-encoded UTF-8, "-" = empty):
   s2b   <unit_system> <text> <0|1 return_int>
+  s2bx  <text> <0|1>              unit_system is any value that is not a str
+  s2bd  <text> <0|1>              unit_system omitted (default of the live signature)
   qemu  <details>                 QemuImgInfo._extract_bytes
   field <details>                 the virtual_size/cluster_size/disk_size rule of _extract_details
 Reply: float <num> <den> [<mant> <10^scale>] | int <n> | inf <0|1 negative> | tiny <num> <den> | unmodelled
@@ -52,6 +54,21 @@ def handle : List String → String
     | some sys, some text, "0" => showS2b text (stringToBytes sys text false)
     | some sys, some text, "1" => showS2b text (stringToBytes sys text true)
     | _, _, _ => "bad-request"
+  | ["s2bx", text, ri] =>        -- unit_system is a value that is not a str
+    match unhexChars text, ri with
+    | some text, "0" => showS2b text (stringToBytesArg .other text false)
+    | some text, "1" => showS2b text (stringToBytesArg .other text true)
+    | _, _ => "bad-request"
+  | ["s2bt", text, ri] =>        -- unit_system is a tuple whose length is not 1
+    match unhexChars text, ri with
+    | some text, "0" => showS2b text (stringToBytesArg .badTuple text false)
+    | some text, "1" => showS2b text (stringToBytesArg .badTuple text true)
+    | _, _ => "bad-request"
+  | ["s2bd", text, ri] =>        -- unit_system omitted
+    match unhexChars text, ri with
+    | some text, "0" => showS2b text (stringToBytesArg .omitted text false)
+    | some text, "1" => showS2b text (stringToBytesArg .omitted text true)
+    | _, _ => "bad-request"
   | ["qemu", details] =>
     match unhexChars details with
     | some d => showQemu d (extractBytes d)
